@@ -37,6 +37,14 @@ import CpModel.Gen.C01Tables
     released: false), `release_serving()` (→ `on_end_request` once), then
     `if streaming and is_closable_iterator(iter_response)`: the iterator's `close()` inside
     `try … except Exception: log`.  `HEAD`: `response.body = []`.
+  * the *class* of what a failing site raises is not a parameter: `Item.raise` / a raising `close()` stand for any
+    `Exception` subclass, CherryPy's own control-flow classes included (InternalRedirect, HTTPRedirect, HTTPError,
+    NotFound — the members of `Request.throws` other than KeyboardInterrupt / SystemExit).  Once the request layer
+    is done with the body (streamed / explicit Content-Length) `_TrappedResponse.trap` and the `try … except
+    Exception` of `close()` / `release_serving` make no difference between them; the B-plans raise each class at
+    every such site (`xk=` / `relx=` tokens) and are compared with this one answer.  (While `finalize` still
+    consumes the body these classes are instructions to the request layer — redirect, error page — and the plans
+    are judged by the oracle only.)
   Not modelled: tools (judged by the oracle only), hooks other than the tampering one, the content of the
   chunks beyond "page chunk / error page / bare error", `start_response` raising.
 -/
